@@ -548,3 +548,13 @@ def alias_root(func, decl_id, depth=0):
     if x is not None and x.k == 'DeclRefExpr' and x['ref'].get('kind') in ('var', 'parm') and x['ref']['id'] != decl_id:
         return alias_root(func, x['ref']['id'], depth + 1)
     return decl_id
+
+
+def thread_data_maker(prog):
+    """the function that allocates and initialises a thread's record: snoopy_tsrm_createNewThreadData, or - when that
+    small helper has been merged into its only caller - the constructor itself (inlined view)"""
+    from engine import inline
+    f = prog.func('snoopy_tsrm_createNewThreadData')
+    if f is None:
+        f = prog.require_func('snoopy_tsrm_ctor')
+    return inline.inlined(prog, f)
